@@ -250,19 +250,27 @@ struct harris_michael_list_based_set<Key, Policies...>::node : reclaimer::templa
 template <class Key, class... Policies>
 auto harris_michael_list_based_set<Key, Policies...>::iterator::operator++() -> iterator& {
   assert(info.cur.get() != nullptr);
-  auto next = info.cur->next.load(std::memory_order_relaxed);
-  guard_ptr tmp_guard;
-  // (1) - this acquire-load synchronizes-with the release-CAS (7, 8, 10, 13)
-  if (next.mark() == 0 && tmp_guard.acquire_if_equal(info.cur->next, next, std::memory_order_acquire)) {
-    info.prev = &info.cur->next;
-    info.save = std::move(info.cur);
-    info.cur = std::move(tmp_guard);
-  } else {
-    // cur is marked for removal
-    // -> use find to remove it and get to the next node with a compare(key, cur->key) == false
-    auto key = info.cur->key;
-    backoff backoff;
-    list->find(key, info, backoff);
+  for (;;) {
+    auto next = info.cur->next.load(std::memory_order_relaxed);
+    if (next.mark() != 0) {
+      // cur is marked for removal
+      // -> use find to remove it and get to the next node with a compare(key, cur->key) == false
+      auto key = info.cur->key;
+      backoff backoff;
+      list->find(key, info, backoff);
+      break;
+    }
+
+    guard_ptr tmp_guard;
+    // (1) - this acquire-load synchronizes-with the release-CAS (7, 8, 10, 13)
+    if (tmp_guard.acquire_if_equal(info.cur->next, next, std::memory_order_acquire)) {
+      info.prev = &info.cur->next;
+      info.save = std::move(info.cur);
+      info.cur = std::move(tmp_guard);
+      break;
+    }
+    // cur->next has changed, but cur might still be in the list (e.g. a new node has been inserted
+    // right behind it) -> retry; a find for cur's key would stop at cur itself and yield it again.
   }
   assert(info.prev == &list->head || info.cur.get() == nullptr ||
          (info.save.get() != nullptr && &info.save->next == info.prev));
